@@ -4,7 +4,7 @@ import shutil
 import sys
 import tempfile
 
-from core import Check, run_check
+from core import Check, run_check, watchdog
 import gen
 from p_graph import tokenize_gfa
 
@@ -18,7 +18,8 @@ def run_view(gaf_lines, gfa_text, fmt, tmp, bgzf=False, gz_graph=False):
     (gen.write_bgzf if bgzf else gen.write_text)(gaf, text)
     out = os.path.join(tmp, "c.out")
     try:
-        view.run(gaf, gfa=gfa, output=out, format=fmt)
+        with watchdog(60):
+            view.run(gaf, gfa=gfa, output=out, format=fmt)
         return open(out).read().splitlines(), None
     except BaseException as e:  # noqa
         return None, type(e).__name__ + ": " + str(e)[:200]
